@@ -21,3 +21,5 @@ void vpy_aio_finish_error(nni_aio *aio, nng_err rv) { vpy_note(aio, rv, 0); vpx_
 /* environment of xreq.c not modelled elsewhere */
 nni_msgq *nni_sock_sendq(nni_sock *s) { (void) s; return ((nni_msgq *) nondet_ptr()); }
 nni_msgq *nni_sock_recvq(nni_sock *s) { (void) s; return ((nni_msgq *) nondet_ptr()); }
+/* src/nng.c is not part of the TU: the public wrapper xreq.c calls, verbatim */
+int nng_msg_header_append(nng_msg *msg, const void *data, size_t sz) { return (nni_msg_header_append(msg, data, sz)); }
